@@ -208,6 +208,94 @@ pub fn front_half(tier: &str, seed: u64, kf: &Kf) -> pdlv_core::evidence::Partia
     })
 }
 
+/// Coverage-guided leg of the thorough tier: the libFuzzer target /verif/fuzz/fuzz_targets/fz_compile.rs
+/// (cargo-fuzz, nightly) is built and run as `jobs` independent campaigns of `runs` executions from fresh
+/// corpus directories seeded with the repository's own description files.  A crash artifact is an
+/// untolerated panic (violation); timeout / out-of-memory artifacts are inconclusive.
+pub fn fuzz_campaign(seed: u64, jobs: usize, runs: u64) -> Result<(pdlv_core::evidence::Partial, bool), String> {
+    use std::process::Command;
+    let tdir = format!("{VERIF}/.work/target-fuzz");
+    let o = Command::new("cargo").args(["+nightly", "fuzz", "build", "--fuzz-dir", &format!("{VERIF}/fuzz"), "fz_compile"]).env("CARGO_TARGET_DIR", &tdir).env("CARGO_NET_OFFLINE", "true").current_dir(format!("{VERIF}/fuzz")).output().map_err(|e| format!("cargo fuzz build: {e}"))?;
+    if !o.status.success() {
+        return Err(format!("cargo +nightly fuzz build failed: {}", String::from_utf8_lossy(&o.stderr).lines().rev().take(5).collect::<Vec<_>>().join(" | ")));
+    }
+    let exe = format!("{tdir}/x86_64-unknown-linux-gnu/release/fz_compile");
+    let base = crate::rustharness::work_dir().join(format!("fuzz-c10-{seed}"));
+    let _ = std::fs::remove_dir_all(&base);
+    let mut seeds: Vec<std::path::PathBuf> = vec![];
+    for d in ["/repo/pdl-compiler/tests/canonical", "/repo/pdl-tests/tests", &format!("{VERIF}/corpus"), &format!("{VERIF}/fuzz/seeds")] {
+        if let Ok(rd) = std::fs::read_dir(d) {
+            let mut v: Vec<_> = rd.flatten().map(|e| e.path()).filter(|p| p.is_file() && p.metadata().map(|m| m.len() < 4096).unwrap_or(false)).collect();
+            v.sort();
+            seeds.extend(v);
+        }
+    }
+    let outs: Vec<(usize, std::io::Result<std::process::Output>)> = std::thread::scope(|sc| {
+        let hs: Vec<_> = (0..jobs)
+            .map(|j| {
+                let (exe, base, seeds) = (&exe, &base, &seeds);
+                sc.spawn(move || {
+                    let corpus = base.join(format!("corpus{j}"));
+                    let arts = base.join(format!("artifacts{j}"));
+                    let _ = std::fs::create_dir_all(&corpus);
+                    let _ = std::fs::create_dir_all(&arts);
+                    for (k, f) in seeds.iter().enumerate() {
+                        // description files become raw-text inputs (first octet even)
+                        if let Ok(mut b) = std::fs::read(f) {
+                            b.insert(0, 0);
+                            let _ = std::fs::write(corpus.join(format!("seed{k}")), b);
+                        }
+                    }
+                    let s = pdlv_core::choice::mix(seed, &format!("C10/libfuzzer/{j}")) as u32 | 1;
+                    (j, Command::new(exe).arg(&corpus).args([format!("-runs={runs}"), format!("-seed={s}"), "-max_len=700".into(), "-len_control=0".into(), "-timeout=30".into(), "-rss_limit_mb=4096".into(), "-print_final_stats=1".into(), format!("-dict={VERIF}/fuzz/pdl.dict"), format!("-artifact_prefix={}/", arts.display())]).env("PDLV_KF", format!("{VERIF}/known_findings.txt")).output())
+                })
+            })
+            .collect();
+        hs.into_iter().map(|h| h.join().unwrap()).collect()
+    });
+    let mut acc = Acc::new("C10");
+    let mut inconclusive = false;
+    for (j, o) in outs {
+        let o = o.map_err(|e| format!("fuzz job {j}: {e}"))?;
+        let err = String::from_utf8_lossy(&o.stderr).to_string();
+        let stat = |k: &str| err.lines().rev().find_map(|l| l.strip_prefix(k).map(|r| r.trim().parse::<u64>().unwrap_or(0))).unwrap_or(0);
+        let done = stat("stat::number_of_executed_units:");
+        let corp = std::fs::read_dir(base.join(format!("corpus{j}"))).map(|r| r.count()).unwrap_or(0) as u64;
+        let cov = err.lines().rev().find(|l| l.contains(" cov: ")).map(|l| l.split_whitespace().skip_while(|w| *w != "cov:").take(4).collect::<Vec<_>>().join(" ")).unwrap_or_default();
+        acc.p.evaluations += done;
+        *acc.p.labels.entry("libfuzzer:fz_compile".into()).or_default() += done;
+        acc.p.notes.push(format!("libFuzzer campaign {j}: {done} executions, {corp} corpus inputs at the end ({cov}), exit {:?}", o.status.code()));
+        // inputs that added coverage are counted as the distinct non-trivial ones of this leg
+        for f in std::fs::read_dir(base.join(format!("corpus{j}"))).into_iter().flatten().flatten() {
+            if let Ok(b) = std::fs::read(f.path()) {
+                acc.nontrivial(fnv(&[b"libfuzzer", &b]), || json!({"class": "libfuzzer corpus input", "octets": pdlv_core::props::hex(&b[..b.len().min(120)])}));
+            }
+        }
+        for f in std::fs::read_dir(base.join(format!("artifacts{j}"))).into_iter().flatten().flatten() {
+            let name = f.file_name().to_string_lossy().to_string();
+            let b = std::fs::read(f.path()).unwrap_or_default();
+            if name.starts_with("crash-") {
+                let msg = err.lines().find(|l| l.starts_with("C10-FUZZ-PANIC")).unwrap_or("crash without a C10-FUZZ-PANIC line (sanitizer report?)").to_string();
+                let text = pdlv_core::fuzzdec::text_of(&b);
+                let keep = format!("{VERIF}/replays/C10-libfuzzer-{:016x}.bin", fnv(&[&b]));
+                let _ = std::fs::create_dir_all(format!("{VERIF}/replays"));
+                let _ = std::fs::write(&keep, &b);
+                acc.p.violations.push(json!({"property": "C10", "op": "libfuzzer:fz_compile", "observed": "untolerated-panic", "detail": msg.chars().take(400).collect::<String>(), "text": text, "input": {"hex": pdlv_core::props::hex(&b)}, "type": Value::Null,
+                    "artifact": keep, "how_to_run": format!("{exe} {keep}"), "signature": format!("C10|libfuzzer|{}", msg.chars().take(80).collect::<String>())}));
+            } else {
+                inconclusive = true;
+                acc.p.notes.push(format!("libFuzzer campaign {j}: artifact {name} (timeout / out of memory / leak): inconclusive, not a violation"));
+            }
+        }
+        if done == 0 && !o.status.success() && acc.p.violations.is_empty() {
+            inconclusive = true;
+            acc.p.notes.push(format!("libFuzzer campaign {j} did not run: {}", err.lines().rev().take(3).collect::<Vec<_>>().join(" | ")));
+        }
+    }
+    let _ = std::fs::remove_dir_all(&base);
+    Ok((acc.p, inconclusive))
+}
+
 pub fn run(tier: &str, seed: u64) -> i32 {
     let t0 = std::time::Instant::now();
     let (kf, _) = crate::rustharness::load_kf();
@@ -251,6 +339,19 @@ pub fn run(tier: &str, seed: u64) -> i32 {
     let back = crate::backhalf::run(tier, seed, &kf);
     let extra = back.extra.clone();
     partial.merge(back.partial);
+    let mut fuzz_inconclusive = false;
+    if tier == "thorough" {
+        match fuzz_campaign(seed, 8, 1_000_000) {
+            Ok((p, inc)) => {
+                partial.merge(p);
+                fuzz_inconclusive = inc;
+            }
+            Err(e) => {
+                eprintln!("infrastructure: coverage-guided leg: {e}");
+                return 2;
+            }
+        }
+    }
     let mut known_reproduced = vec![];
     for f in kf.for_property("C10") {
         if let Ok(t) = std::fs::read_to_string(format!("{VERIF}/{}", f.replay)) {
@@ -279,11 +380,16 @@ pub fn run(tier: &str, seed: u64) -> i32 {
         tier: tier.into(),
         seed,
         partial,
-        rule: "front half, in-process with panics caught: random (lossy UTF-8) texts, token soup from the PDL vocabulary (incl. 2^64 and 2^64-1 literals), mutated valid sources (token delete / duplicate / swap / replace / insert / splice of two files), semantically absurd ASTs printed as text, and accepted descriptions drawn from each backend's profile handed to that backend (json always; Rust output must also re-parse with syn; Java output written to a scratch directory). Oracle: parse returns; if Ok analyze returns and its diagnostics render; if Ok every backend in whose profile the description lies returns. Back half: the descriptions of the compiled batches: rustc type-checks the Rust harness crate (offending modules bisected from the diagnostics), CPython compile()+import of the Python module, g++ -std=c++17 -fsyntax-only of the C++ header, javac of the Java package. Non-trivial: texts that parse, and accepted descriptions; distinct by text.".into(),
+        rule: "front half, in-process with panics caught: random (lossy UTF-8) texts, token soup from the PDL vocabulary (incl. 2^64 and 2^64-1 literals), mutated valid sources (token delete / duplicate / swap / replace / insert / splice of two files), semantically absurd ASTs printed as text, and accepted descriptions drawn from each backend's profile handed to that backend (json always; Rust output must also re-parse with syn; Java output written to a scratch directory). Oracle: parse returns; if Ok analyze returns and its diagnostics render; if Ok every backend in whose profile the description lies returns. Back half: the descriptions of the compiled batches: rustc type-checks the Rust harness crate (offending modules bisected from the diagnostics), CPython compile()+import of the Python module, g++ -std=c++17 -fsyntax-only of the C++ header, javac of the Java package. Thorough tier only: a coverage-guided leg, 8 libFuzzer campaigns of 10^6 executions each on /verif/fuzz fz_compile (octets taken as text or as a token stream over the vocabulary; parse, analyze, diagnostics rendering, JSON generator under catch_unwind; a panic not matching a listed finding aborts), from fresh corpora seeded with the repository's description files; its corpus inputs at the end (inputs that added coverage) are what it contributes to the distinct non-trivial count. Non-trivial: texts that parse, and accepted descriptions; distinct by text.".into(),
         assumptions: vec!["non-termination and stack exhaustion are only observed as a worker death (exit 2); worker threads have a 64 MiB stack".into(), "descriptions outside a backend's documented support list are not handed to that backend".into()],
         extra,
         wall_s: t0.elapsed().as_secs_f64(),
         known_reproduced,
     };
-    finish(v, &kf)
+    let code = finish(v, &kf);
+    if code == 0 && fuzz_inconclusive {
+        eprintln!("inconclusive: a libFuzzer campaign ended with a timeout / out-of-memory artifact");
+        return 2;
+    }
+    code
 }
